@@ -357,6 +357,63 @@ GEN(int) @G(n int) {
 	RETURN
 }`, Drives: []Drive{gen("int", "@G", "0"), gen("int", "@G", "2")}},
 
+	{Name: "YieldFromInPostBodyShapes", Props: []string{"C05", "C01"}, Src: `
+// a delegating post statement after every shape of loop body end: a plain statement, a yield, an if without
+// else, an if-else and a switch with default whose branches all yield (terminating statements), a nested loop
+GEN(int) @Leaf(a, n int) {
+	for i := 0; i < n; i++ { YIELD(a + i) }
+	RETURN
+}
+GEN(int) @IfElse(n int) {
+	for i := 0; i < n; YIELDFROM(GENCALL(int, @Leaf, 10*i, 2)) {
+		i++
+		if i%2 == 1 { YIELD(100 + i) } else { YIELD(200 + i) }
+	}
+	YIELD(-1)
+	RETURN
+}
+GEN(int) @SwitchDefault(n int) {
+	for i := 0; i < n; YIELDFROM(GENCALL(int, @Leaf, 10*i, 2)) {
+		i++
+		switch i {
+		case 1, 3:
+			YIELD(100 + i)
+		default:
+			YIELD(200 + i)
+		}
+	}
+	YIELD(-1)
+	RETURN
+}
+GEN(int) @IfOnly(n int) {
+	for i := 0; i < n; YIELDFROM(GENCALL(int, @Leaf, 10*i, 2)) {
+		i++
+		if i%2 == 1 { YIELD(100 + i) }
+	}
+	YIELD(-1)
+	RETURN
+}
+GEN(int) @Plain(n int) {
+	t := 0
+	for i := 0; i < n; YIELDFROM(GENCALL(int, @Leaf, 10*i+t, 1)) {
+		i++
+		t += i
+	}
+	for i := 0; i < n; YIELDFROM(GENCALL(int, @Leaf, 50*i, 1)) {
+		i++
+		YIELD(i)
+	}
+	for i := 0; i < n; YIELD(1000 + i) {
+		i++
+		if i > 1 { YIELD(300 + i) } else if i == 1 { YIELD(400) } else { YIELD(500) }
+	}
+	for i := 0; i < n; YIELDFROM(GENCALL(int, @Leaf, 70*i, 1)) {
+		i++
+		for j := 0; j < 2; j++ { YIELD(600 + j) }
+	}
+	RETURN
+}`, Drives: []Drive{gen("int", "@IfElse", "3"), gen("int", "@SwitchDefault", "3"), gen("int", "@IfOnly", "3"), gen("int", "@Plain", "2")}},
+
 	{Name: "YieldFromExhausted", Props: []string{"C05", "C09", "C06"}, Src: `
 // an exhausted delegate has no remaining elements: delegating to it again delivers nothing and runs
 // nothing of it again (not even the code after its last yield), however it got exhausted
@@ -970,6 +1027,46 @@ GEN(int) @G(n int) {
 	RETURN
 }`, Drives: []Drive{gen("int", "@G", "1")}},
 
+	{Name: "ElseIfInitYield", Props: []string{"C12"}, MayReject: true, Src: `
+// the initialiser of an else-if (and of an else-if of an else-if) is an if initialiser too
+GEN(int) @G(n int) {
+	YIELD(0)
+	if n < 0 {
+		YIELD(-1)
+	} else if YIELD(1); n > 0 {
+		YIELD(2)
+	}
+	YIELD(3)
+	RETURN
+}`, Drives: []Drive{gen("int", "@G", "5"), gen("int", "@G", "0")}},
+
+	{Name: "ElseIfInitYieldDeep", Props: []string{"C12"}, MayReject: true, Src: `
+GEN(int) @G(n int) {
+	if n < 0 {
+		YIELD(-1)
+	} else if n == 0 {
+		YIELD(0)
+	} else if YIELD(1); n > 1 {
+		YIELD(2)
+	} else {
+		YIELD(4)
+	}
+	RETURN
+}`, Drives: []Drive{gen("int", "@G", "5"), gen("int", "@G", "1")}},
+
+	{Name: "ElseIfInitYieldTrivialChain", Props: []string{"C12"}, MayReject: true, Src: `
+// no other yield inside the if statement: the whole chain would be kept as it is
+GEN(int) @G(n int) {
+	t := 0
+	if n < 0 {
+		t = -1
+	} else if YIELD(1); n > 0 {
+		t = 2
+	}
+	YIELD(t)
+	RETURN
+}`, Drives: []Drive{gen("int", "@G", "5")}},
+
 	{Name: "RangePointerToArray", Props: []string{"C12", "C04"}, MayReject: true, Src: `
 GEN(int) @G() {
 	a := &[3]int{1, 2, 3}
@@ -996,6 +1093,30 @@ func @F(n int) int {
 	RANGEITER(, , GENCALL(int, @Nat, n)) { c++ }
 	return c
 }`, Drives: []Drive{fn("int", "@F", "3")}},
+
+	{Name: "EtaPackageQualifiedCallees", Props: []string{"C13", "C07", "C11"}, Imports: `"slices"; "strings"; "sort"`, Src: `
+// closures that only forward to a function of an imported package: a generic one with inferred type
+// arguments is not a value (the closure must stay), a plain one and an instantiated one may be reduced
+GEN(int) @G(rows [][]int) {
+	max := func(xs []int) int { return slices.Max(xs) }
+	idx := func(xs []int, v int) int { return slices.Index(xs, v) }
+	inst := func(xs []int) int { return slices.Min[[]int](xs) }
+	up := func(s string) string { return strings.ToUpper(s) }
+	srt := func(xs []int) { sort.Ints(xs) }
+	for _, row := range rows {
+		if len(row) == 0 { continue }
+		srt(row)
+		YIELD(max(row)*100 + idx(row, max(row))*10 + inst(row))
+	}
+	YIELD(len(up("ab")))
+	RETURN
+}
+func @F(rows [][]int) int {
+	max := func(xs []int) int { return slices.Max(xs) }
+	t := 0
+	for _, r := range rows { if len(r) > 0 { t += max(r) } }
+	return t
+}`, Drives: []Drive{gen("int", "@G", "[][]int{{3, 5, 1}, {}, {7}, {4, 2}}"), fn("int", "@F", "[][]int{{3, 5, 1}, {}, {7}}")}},
 
 	{Name: "EtaShapes", Props: []string{"C13", "C07", "C11"}, Src: `
 type @Node struct { v int; next *@Node }
